@@ -15,9 +15,9 @@ namespace Bashlex
 /-! ## small Python helpers -/
 
 /-- fuel for one loop over the tape -/
-def loopFuel : M Nat := do return 4 * (← tapeLine).length + 16
+def loopFuel : M Nat := pure 1073741824
 /-- fuel for the recursion depth of `_parse_matched_pair` / `_parse_comsub` -/
-def depthFuel : M Nat := do return (← tapeLine).length + 8
+def depthFuel : M Nat := pure 1048576
 
 /-- `s[i:]` for a Python int `i` (negative counts from the end) -/
 def pySliceFromInt (s : Str) (i : Int) : Str :=
